@@ -55,7 +55,9 @@ def validate(res, prop, judge, flags_a, flags_b, mode_a="plain", mode_b="wild", 
     """runs both regions; records coverage; returns (tie_ok, violations-as-payload-list)"""
     n_a = 3000 if res.tier == "quick" else 60000
     n_b = 1500 if res.tier == "quick" else 6000
-    a = run_region(flags_a, judge, n_a if region_a else 1, res.seed, mode_a)
+    # a property whose failures are known findings identified per input (C06) has no seeded region: a fresh seed would find
+    # fresh instances of the same findings, which no committed list can name
+    a = run_region(flags_a, judge, n_a, res.seed, mode_a) if region_a else dict(tot={}, stats={}, bads=[], ok=True, errs=[], samples=[])
     if region_a and mode_a.startswith("plain"):
         # second half of region A: comments also before and after the commas of expression lists and argument lists
         mode_a2 = mode_a.replace("plain", "lists")
